@@ -17,12 +17,6 @@ structure TInv (s : St) : Prop where
   j : ∀ w, s.swhen = some w → s.spinning = true ∨ s.tick = true ∨
         ∃ d, s.timer = some d ∧ (d ≤ s.now * 1000 ∨ d ≤ w)
 
-/-- The schedule actions whose offset has no positive sub-second part (`frac ≤ 0`): for those the truncation of
-the offset to whole seconds never makes the timer later than the item. -/
-def Act.fracOk : Act → Prop
-  | .sched _ _ _ _ frac => frac ≤ 0
-  | _ => True
-
 theorem tinv_init : TInv {} := ⟨by simp, by simp, by simp⟩
 
 theorem less_whn_le {a b : Item} (h : less a b = true) : a.whn ≤ b.whn := by
@@ -49,21 +43,24 @@ theorem head_none {q : List Item} (h : q.head? = none) : q = [] := by
   | nil => rfl
   | cons a r => simp at h
 
-theorem tinv_schedule {E : Env} {s : St} (h : TInv s) (hq : QInv s) (id sc : Nat) (off last frac : Int)
-    (hfrac : frac ≤ 0) : TInv (schedule E s id sc off last frac) := by
+theorem tinv_schedule {E : Env} {s : St} (h : TInv s) (hq : QInv s) (id sc : Nat) (off last frac : Int) :
+    TInv (schedule E s id sc off last frac) := by
   unfold schedule
+  simp only
+  generalize off * 1000 + frac = o
+  have hsec := le_secUp o
   cases hn : E.nx sc last with
   | none => exact ⟨h.k1, h.k2, h.j⟩
   | some nt =>
     simp only
     -- membership in the new queue (from the safety part)
-    have hmem : ∀ x, x ∈ qreplace (match aget (schedTimer s ((nt + off) * 1000 + frac)).index id with
-          | some w => qdelete (schedTimer s ((nt + off) * 1000 + frac)).queue (key id w)
-          | none => (schedTimer s ((nt + off) * 1000 + frac)).queue)
-          { whn := nt + off, id := id, sc := sc, next := nt, off := off } →
-        x = { whn := nt + off, id := id, sc := sc, next := nt, off := off } ∨ x ∈ s.queue := by
+    have hmem : ∀ x, x ∈ qreplace (match aget (schedTimer s (nt * 1000 + o)).index id with
+          | some w => qdelete (schedTimer s (nt * 1000 + o)).queue (key id w)
+          | none => (schedTimer s (nt * 1000 + o)).queue)
+          { whn := nt + secUp o, id := id, sc := sc, next := nt, off := o } →
+        x = { whn := nt + secUp o, id := id, sc := sc, next := nt, off := o } ∨ x ∈ s.queue := by
       intro x hx
-      obtain ⟨_, f2, f3, _, _⟩ := schedTimer_fields s ((nt + off) * 1000 + frac)
+      obtain ⟨_, f2, f3, _, _⟩ := schedTimer_fields s (nt * 1000 + o)
       rw [f2, f3] at hx
       rcases mem_qreplace.mp hx with h1 | ⟨h1, _⟩
       · exact Or.inl h1
@@ -90,7 +87,7 @@ theorem tinv_schedule {E : Env} {s : St} (h : TInv s) (hq : QInv s) (id sc : Nat
         · right; exact Int.le_refl _
     | some sw =>
       simp only [hw] at hmem ⊢
-      by_cases hgt : sw > (nt + off) * 1000 + frac
+      by_cases hgt : sw > nt * 1000 + o
       · simp only [hgt, decide_true, ite_true] at hmem ⊢
         refine ⟨?_, by simp, ?_⟩
         · intro w hw' x hx
@@ -205,10 +202,10 @@ theorem tinv_iter {E : Env} (hincr : Incr E.nx) {s : St} (h : TInv s) (hg : Good
           have := hmin x hx
           omega
 
-theorem tinv_act {E : Env} (hincr : Incr E.nx) {s : St} (h : TInv s) (hg : Good E s) (a : Act) (ha : a.fracOk) :
+theorem tinv_act {E : Env} (hincr : Incr E.nx) {s : St} (h : TInv s) (hg : Good E s) (a : Act) :
     TInv (act E s a) := by
   cases a with
-  | sched id sc off last frac => exact tinv_schedule h hg.q id sc off last frac ha
+  | sched id sc off last frac => exact tinv_schedule h hg.q id sc off last frac
   | rel id => exact tinv_release h id
   | adv d => exact tinv_adv h d
   | fire => exact tinv_kick h
@@ -224,154 +221,13 @@ theorem tinv_act {E : Env} (hincr : Incr E.nx) {s : St} (h : TInv s) (hg : Good 
     · exact h
   | done id res cpok => exact tinv_done h id res cpok
 
-theorem tinv_runActs {E : Env} (hincr : Incr E.nx) (as : List Act) (has : ∀ a ∈ as, a.fracOk) :
+theorem tinv_runActs {E : Env} (hincr : Incr E.nx) (as : List Act) :
     ∀ {s : St}, TInv s → Good E s → TInv (runActs E s as) := by
   induction as with
   | nil => intro s h _; exact h
   | cons a as ih =>
     intro s h hg
-    exact ih (fun b hb => has b (by simp [hb])) (tinv_act hincr h hg a (has a (by simp))) (good_act hincr hg a)
-
-/-! ### the action sequences of harness ops keep `fracOk` -/
-
-def Op.fracOk : Op → Prop
-  | .sched _ _ _ _ frac => frac ≤ 0
-  | _ => True
-
-theorem loopRun_acts_frac (E : Env) (skip : List Nat) : ∀ (f : Nat) (s : St),
-    ∃ as, loopRun E skip f s = runActs E s as ∧ ∀ a ∈ as, a.fracOk := by
-  intro f
-  induction f with
-  | zero => intro s; exact ⟨[], rfl, by simp⟩
-  | succ f ih =>
-    intro s
-    obtain ⟨as, has⟩ := loopRun_acts E skip (f + 1) s
-    -- rebuild the witness with the shape information: every action is consume or iter
-    unfold loopRun
-    by_cases hsp : s.spinning = true
-    · simp only [hsp, ite_true]
-      have hiter : act E s (Act.iter skip) = { (loopIter E skip s).1 with spinning := (loopIter E skip s).2 } := by
-        simp [act, hsp]
-      by_cases hc : (loopIter E skip s).2 = true
-      · simp only [hc, ite_true]
-        have hspin : (loopIter E skip s).1.spinning = true := by
-          unfold loopIter
-          split
-          · simpa using hsp
-          · split
-            · simpa using hsp
-            · simp only
-              split
-              · simpa [process] using hsp
-              · split <;> simpa [process] using hsp
-        have heq : act E s (Act.iter skip) = (loopIter E skip s).1 := by
-          rw [hiter, hc, ← hspin]
-        split
-        · exact ⟨[Act.iter skip], by simp [runActs, heq], by simp [Act.fracOk]⟩
-        · obtain ⟨as', has', hf'⟩ := ih (loopIter E skip s).1
-          refine ⟨Act.iter skip :: as', by simp [runActs, heq] at has' ⊢; exact has', ?_⟩
-          intro a ha
-          rcases List.mem_cons.mp ha with rfl | ha
-          · simp [Act.fracOk]
-          · exact hf' a ha
-      · have hc' : (loopIter E skip s).2 = false := by simpa using hc
-        simp only [hc', Bool.false_eq_true, ite_false]
-        obtain ⟨as', has', hf'⟩ := ih { (loopIter E skip s).1 with spinning := false }
-        refine ⟨Act.iter skip :: as', ?_, ?_⟩
-        · simp only [runActs, List.foldl] at has' ⊢
-          rw [hiter, hc']; exact has'
-        · intro a ha
-          rcases List.mem_cons.mp ha with rfl | ha
-          · simp [Act.fracOk]
-          · exact hf' a ha
-    · have hsp' : s.spinning = false := by simpa using hsp
-      simp only [hsp', Bool.false_eq_true, ite_false]
-      by_cases ht : s.tick = true
-      · simp only [ht, ite_true]
-        obtain ⟨as', has', hf'⟩ := ih { s with tick := false, spinning := true }
-        refine ⟨Act.consume :: as', ?_, ?_⟩
-        · simp only [runActs, List.foldl] at has' ⊢
-          have : act E s Act.consume = { s with tick := false, spinning := true } := by simp [act, ht, hsp']
-          rw [this]; exact has'
-        · intro a ha
-          rcases List.mem_cons.mp ha with rfl | ha
-          · simp [Act.fracOk]
-          · exact hf' a ha
-      · have ht' : s.tick = false := by simpa using ht
-        simp only [ht', Bool.false_eq_true, ite_false]
-        exact ⟨[], rfl, by simp⟩
-
-theorem settle_acts_frac (E : Env) (skip : List Nat) (s : St) :
-    ∃ as, settle E skip s = runActs E s as ∧ ∀ a ∈ as, a.fracOk := by
-  unfold settle
-  obtain ⟨a1, h1, f1⟩ := loopRun_acts_frac E skip fuel s
-  obtain ⟨a2, h2, f2⟩ := loopRun_acts_frac E skip fuel (kick (loopRun E skip fuel s))
-  obtain ⟨a3, h3, f3⟩ := loopRun_acts_frac E skip fuel (kick (loopRun E skip fuel (kick (loopRun E skip fuel s))))
-  refine ⟨a1 ++ [Act.fire] ++ a2 ++ [Act.fire] ++ a3, ?_, ?_⟩
-  · rw [h3, h2, h1]
-    simp [runActs, List.foldl_append, act]
-  · intro a ha
-    simp only [List.mem_append, List.mem_singleton] at ha
-    rcases ha with (((ha | ha) | ha) | ha) | ha
-    · exact f1 a ha
-    · subst ha; simp [Act.fracOk]
-    · exact f2 a ha
-    · subst ha; simp [Act.fracOk]
-    · exact f3 a ha
-
-theorem step_acts_frac (E : Env) (skip : List Nat) (s : St) (op : Op) (hop : op.fracOk) :
-    ∃ as, step E skip s op = runActs E s as ∧ ∀ a ∈ as, a.fracOk := by
-  cases op with
-  | sched id sc off last frac =>
-    obtain ⟨as, h, hf⟩ := settle_acts_frac E skip (schedule E s id sc off last frac)
-    refine ⟨Act.sched id sc off last frac :: as, by simp only [step, h]; rfl, ?_⟩
-    intro a ha
-    rcases List.mem_cons.mp ha with rfl | ha
-    · exact hop
-    · exact hf a ha
-  | rel id =>
-    obtain ⟨as, h, hf⟩ := settle_acts_frac E skip (release s id)
-    refine ⟨Act.rel id :: as, by simp only [step, h]; rfl, ?_⟩
-    intro a ha
-    rcases List.mem_cons.mp ha with rfl | ha
-    · simp [Act.fracOk]
-    · exact hf a ha
-  | adv d =>
-    simp only [step]
-    split
-    · exact settle_acts_frac E skip s
-    · obtain ⟨as, h, hf⟩ := settle_acts_frac E skip { s with now := s.now + d, trace := Ev.clock (s.now + d) :: s.trace }
-      refine ⟨Act.adv d :: as, by rw [h]; rfl, ?_⟩
-      intro a ha
-      rcases List.mem_cons.mp ha with rfl | ha
-      · simp [Act.fracOk]
-      · exact hf a ha
-  | done id res cpok =>
-    obtain ⟨as, h, hf⟩ := settle_acts_frac E skip (done E s id res cpok)
-    refine ⟨Act.done id res cpok :: as, by simp only [step, h]; rfl, ?_⟩
-    intro a ha
-    rcases List.mem_cons.mp ha with rfl | ha
-    · simp [Act.fracOk]
-    · exact hf a ha
-
-theorem runOps_acts_frac (E : Env) (ops : List (List Nat × Op))
-    (hfrac : ∀ p ∈ ops, match p.2 with | .sched _ _ _ _ frac => frac ≤ 0 | _ => True) :
-    ∀ s, ∃ as, runOps E s ops = runActs E s as ∧ ∀ a ∈ as, a.fracOk := by
-  induction ops with
-  | nil => intro s; exact ⟨[], rfl, by simp⟩
-  | cons op ops ih =>
-    intro s
-    have hop : op.2.fracOk := by
-      have := hfrac op (by simp)
-      cases h : op.2 <;> simp_all [Op.fracOk]
-    obtain ⟨a1, h1, f1⟩ := step_acts_frac E op.1 s op.2 hop
-    obtain ⟨a2, h2, f2⟩ := ih (fun p hp => hfrac p (by simp [hp])) (step E op.1 s op.2)
-    refine ⟨a1 ++ a2, ?_, ?_⟩
-    · rw [runActs_append, ← h1, ← h2]; rfl
-    · intro a ha
-      rcases List.mem_append.mp ha with ha | ha
-      · exact f1 a ha
-      · exact f2 a ha
+    exact ih (tinv_act hincr h hg a) (good_act hincr hg a)
 
 /-! ### a pass that dispatches nothing found every due item's worker busy -/
 
@@ -411,7 +267,7 @@ theorem fold_no_progress (E : Env) : ∀ (l : List Item) (a : PAcc),
     · exact hb.1
     · exact fold_no_progress E r a h it hit
 
-theorem due_in_prefix {now : Int} : ∀ {q : List Item}, Sorted q → (∀ x ∈ q, x.whn = x.next + x.off) →
+theorem due_in_prefix {now : Int} : ∀ {q : List Item}, Sorted q → (∀ x ∈ q, x.whn = x.next + secUp x.off) →
     ∀ it ∈ q, it.whn ≤ now → it ∈ q.takeWhile (isDue now)
   | [], _, _, it, h, _ => by simp at h
   | a :: r, hs, hw, it, hit, hdue => by
